@@ -118,6 +118,10 @@ func (p *Pong) OnTerminate() {
 	atomic.AddInt32(&p.Terminated, 1)
 }
 
+// LibraryErrorTexts are error texts the library itself produces: a method may
+// fail with the same words (it may have made a call of its own which failed so).
+var LibraryErrorTexts = []string{"message dropped: consumer blocked", "Object not found", "Service not found", "EOF", "cancelled", "use of closed network connection"}
+
 // Hello records and answers.
 func (p *Pong) Hello(a string) (string, error) {
 	if d := delayOf(a); d > 0 {
@@ -126,6 +130,10 @@ func (p *Pong) Hello(a string) (string, error) {
 	p.J.Add(p.Name, "hello", a)
 	if strings.HasPrefix(a, "fail:") {
 		return "", errors.New("e:" + a)
+	}
+	if strings.HasPrefix(a, "failas:") && len(a) > 8 {
+		// a method whose own error reads like one of the library's
+		return "", errors.New(LibraryErrorTexts[int(a[7]-'0')%len(LibraryErrorTexts)])
 	}
 	return "r:" + a, nil
 }
